@@ -62,7 +62,7 @@ var (
 	c08CondFields = []string{"a", "b", "c", "http.status", "d", "zz", "root.a", "root.b", "root.http.status", "root.zz"}
 	c08Ints       = []int64{0, 1, -1, 2, 3, 10, 200, 404, 500, 1 << 53, 1<<53 + 1, 1<<63 - 1, -1 << 63, 1<<62 + 1}
 	c08Floats     = []float64{0.5, 1.5, -2.5, 200, 200.5, 1, 0, 3, 1e21, 1e-7, 0.1, 9007199254740992, 9223372036854775808, -9223372036854775808, 1.7976931348623157e308, 404}
-	c08Strings    = []string{"", "200", "404", "1.5", "abc", "ab", "b", "true", "false", "1", "0", "t", "<nil>", "007", "+5", "-3", " 5", "1e2", "0x10", "health", "/health/x", "[1 2]", "200.0", "9223372036854775808", "map[k:1]", "T", "a,b"}
+	c08Strings    = []string{"", "200", "404", "1.5", "abc", "ab", "b", "true", "false", "1", "0", "t", "<nil>", "007", "+5", "-3", " 5", "1e2", "0x10", "health", "/health/x", "[1 2]", "200.0", "9223372036854775808", "map[k:1]", "T", "a,b", "TrUe", "tRUE", "False"}
 	c08Ops        = []string{"=", "!=", ">", "<", ">=", "<=", "starts-with", "contains", "does-not-contain", "exists", "not-exists", "has-root-span", "matches", "in", "not-in"}
 	c08Dts        = []string{"", "", "string", "int", "float", "bool"}
 	c08Patterns   = []string{"abc", "^ab", "b$", "^200$", "", "^", "health", "^/health", "0", "(", "[a", "*a", "^1", "nil"}
@@ -177,7 +177,7 @@ func c08GenCond(r *rand.Rand, pool []c08Pooled) c08Cond {
 		c.Field, c.Fields = "", nil
 		switch r.Intn(6) {
 		case 0:
-			c.Val = rvVal{K: "s", S: []string{"true", "1", "yes", "false", "T"}[r.Intn(5)]}
+			c.Val = rvVal{K: "s", S: []string{"true", "1", "yes", "false", "T", "TrUe", "True"}[r.Intn(7)]}
 		case 1:
 			c.Val = rvVal{K: "int", I: int64(r.Intn(2))}
 		default:
@@ -246,7 +246,52 @@ func c08GenCond(r *rand.Rand, pool []c08Pooled) c08Cond {
 // chosen RELATIVE to the span value as coerced by the datatype (equal / just below / just above,
 // in a random representation), so that every (datatype, operator) arm is exercised at its
 // boundary.  One third of all cases.
+// c08GenVirtual: the virtual field ?.NUM_DESCENDANTS compared with the span count itself and its
+// neighbours, in every representation and datatype; also named inside Fields, where it is NOT
+// virtual (GetComputedField only looks at Field).
+func c08GenVirtual(r *rand.Rand) c08Input {
+	in := c08Input{Seed: int64(1 + r.Intn(1_000_000)), TraceID: fmt.Sprintf("trace-%d", r.Intn(1000)), Root: -1}
+	n := 1 + r.Intn(5)
+	for k := 0; k < n; k++ {
+		var sp []c08Field
+		if r.Intn(2) == 0 {
+			sp = append(sp, c08Field{K: "a", V: c08PickScalar(r, false)})
+		}
+		in.Spans = append(in.Spans, sp)
+	}
+	if r.Intn(2) == 0 {
+		in.Root = r.Intn(n)
+	}
+	want := int64(n + r.Intn(3) - 1)
+	var cv rvVal
+	switch r.Intn(3) {
+	case 0:
+		cv = rvVal{K: "int", I: want}
+	case 1:
+		cv = rvVal{K: "f", F: float64(want)}
+	default:
+		cv = rvVal{K: "s", S: strconv.FormatInt(want, 10)}
+	}
+	c := c08Cond{Field: "?.NUM_DESCENDANTS", Op: []string{"=", "!=", ">", "<", ">=", "<=", "=", ">=", "in", "not-in"}[r.Intn(10)],
+		Dt: []string{"int", "int", "", "float", "string"}[r.Intn(5)], Val: cv}
+	if c.Op == "in" || c.Op == "not-in" {
+		c.Val = rvVal{K: "list", L: []rvVal{cv, {K: "int", I: 77}}}
+	}
+	if r.Intn(6) == 0 {
+		c.Field, c.Fields = "", []string{"?.NUM_DESCENDANTS", "a"}
+	}
+	ru := c08Rule{Name: "size", Rate: 1, Drop: r.Intn(2) == 0, Scope: []string{"", "span", "trace"}[r.Intn(3)], Conds: []c08Cond{c}}
+	if r.Intn(3) == 0 {
+		ru.Conds = append(ru.Conds, c08Cond{Op: "has-root-span", Val: rvVal{K: "b", B: r.Intn(2) == 0}})
+	}
+	in.Rules = []c08Rule{ru}
+	return in
+}
+
 func c08GenFocused(r *rand.Rand) c08Input {
+	if r.Intn(8) == 0 {
+		return c08GenVirtual(r)
+	}
 	in := c08Input{Seed: int64(1 + r.Intn(1_000_000)), TraceID: fmt.Sprintf("trace-%d", r.Intn(1000)), Root: -1}
 	sv := c08PickScalar(r, false)
 	dt := []string{"", "string", "int", "float", "bool"}[r.Intn(5)]
@@ -345,12 +390,14 @@ func c08GenFocused(r *rand.Rand) c08Input {
 			cv = rvVal{K: "s", S: s}
 		}
 	default: // bool
-		cv = []rvVal{{K: "b", B: true}, {K: "b", B: false}, {K: "s", S: "true"}, {K: "s", S: "1"}, {K: "int", I: 1}, {K: "int", I: 0}, {K: "s", S: "yes"}, {K: "f", F: 1}}[r.Intn(8)]
+		cv = []rvVal{{K: "b", B: true}, {K: "b", B: false}, {K: "s", S: "true"}, {K: "s", S: "1"}, {K: "int", I: 1}, {K: "int", I: 0}, {K: "s", S: "yes"}, {K: "f", F: 1}, {K: "s", S: "TrUe"}, {K: "s", S: "TRUE"}}[r.Intn(10)]
 	}
 	if op == "matches" {
 		cv = rvVal{K: "s", S: c08Patterns[r.Intn(len(c08Patterns))]}
 	}
-	if op == "in" || op == "not-in" {
+	if (op == "in" || op == "not-in") && r.Intn(2) == 0 && (cv.K == "s" || cv.K == "int" || cv.K == "f" || cv.K == "b") {
+		// a single scalar instead of a list (string / int / float64 are accepted, anything else is an error)
+	} else if op == "in" || op == "not-in" {
 		l := rvVal{K: "list", L: []rvVal{}}
 		for k, n := 0, r.Intn(3); k < n; k++ {
 			l.L = append(l.L, c08PickScalar(r, true))
@@ -384,9 +431,170 @@ func c08GenFocused(r *rand.Rand) c08Input {
 	return in
 }
 
+// c08GenMixedFields: a Fields list that mixes plain and root.-prefixed names, on a trace where
+// some spans lack the plain field (so the value falls back to the root span and does NOT match)
+// while another span carries the plain field with a matching value.  This is the shape on which
+// the checkedOnlyRoot bookkeeping of extractValueFromSpan decides whether the span loops may stop
+// early; it has to be cumulative over the Fields already looked at.  One sixth of all cases.
+// c08GenShapes: two further shapes straight from the property text.
+//
+//	first-present: Fields [a, b] where ONE span carries both, a with a non-matching and b with a
+//	               matching value — the first present field decides, the rule must not match
+//	               (unless another span helps);
+//	split:         two conditions each satisfied by a DIFFERENT span — matches in trace scope,
+//	               must not match in span scope.
+func c08GenShapes(r *rand.Rand) c08Input {
+	in := c08Input{Seed: int64(1 + r.Intn(1_000_000)), TraceID: fmt.Sprintf("trace-%d", r.Intn(1000)), Root: -1}
+	good := c08PickScalar(r, false)
+	for good.K == "nil" || good.K == "map" || good.K == "arr" {
+		good = c08PickScalar(r, false)
+	}
+	bad := c08PickScalar(r, false)
+	for fmt.Sprint(bad.goSpan()) == fmt.Sprint(good.goSpan()) {
+		bad = c08PickScalar(r, false)
+	}
+	eq := func(field string, fields []string) c08Cond {
+		c := c08Cond{Field: field, Fields: fields, Op: "=", Val: good}
+		if r.Intn(3) == 0 {
+			c.Dt = "string"
+			c.Val = rvVal{K: "s", S: fmt.Sprintf("%v", good.goSpan())}
+		}
+		return c
+	}
+	scope := []string{"", "trace", "span", "span"}[r.Intn(4)]
+	if r.Intn(2) == 0 {
+		// first-present
+		first, second := "a", "b"
+		if r.Intn(4) == 0 {
+			first, second = "root.a", "b"
+		}
+		sp := []c08Field{{K: "a", V: bad}, {K: "b", V: good}}
+		in.Spans = [][]c08Field{sp}
+		if r.Intn(2) == 0 {
+			in.Spans = append(in.Spans, []c08Field{{K: "c", V: good}})
+		}
+		if r.Intn(3) == 0 { // a second span where the first field is absent and the second matches
+			in.Spans = append(in.Spans, []c08Field{{K: "b", V: good}})
+		}
+		if first == "root.a" || r.Intn(2) == 0 {
+			in.Root = 0
+		}
+		in.Rules = []c08Rule{{Name: "first-present", Rate: 1, Drop: r.Intn(2) == 0, Scope: scope, Conds: []c08Cond{eq("", []string{first, second})}}}
+	} else {
+		// split
+		s1 := []c08Field{{K: "a", V: good}, {K: "b", V: bad}}
+		s2 := []c08Field{{K: "a", V: bad}, {K: "b", V: good}}
+		in.Spans = [][]c08Field{s1, s2}
+		if r.Intn(3) == 0 {
+			in.Spans = [][]c08Field{s2, {}, s1}
+		}
+		if r.Intn(4) == 0 { // sometimes one span does satisfy both
+			in.Spans = append(in.Spans, []c08Field{{K: "a", V: good}, {K: "b", V: good}})
+		}
+		in.Root = r.Intn(len(in.Spans)+1) - 1
+		conds := []c08Cond{eq("a", nil), eq("b", nil)}
+		if r.Intn(4) == 0 {
+			conds = append(conds, c08Cond{Field: "c", Op: "not-exists", Val: rvVal{K: "nil"}})
+		}
+		in.Rules = []c08Rule{{Name: "split", Rate: 1, Drop: r.Intn(2) == 0, Scope: scope, Conds: conds}}
+	}
+	if r.Intn(2) == 0 {
+		in.Rules = append(in.Rules, c08Rule{Name: "later", Rate: 5})
+	}
+	return in
+}
+
+func c08GenMixedFields(r *rand.Rand) c08Input {
+	if r.Intn(3) == 0 {
+		return c08GenShapes(r)
+	}
+	in := c08Input{Seed: int64(1 + r.Intn(1_000_000)), TraceID: fmt.Sprintf("trace-%d", r.Intn(1000))}
+	match := c08PickScalar(r, false)
+	for match.K == "nil" || match.K == "map" || match.K == "arr" {
+		match = c08PickScalar(r, false)
+	}
+	other := c08PickScalar(r, false)
+	for other.K == match.K && fmt.Sprint(other.goSpan()) == fmt.Sprint(match.goSpan()) {
+		other = c08PickScalar(r, false)
+	}
+	// the Fields list: plain "x" and root-prefixed "root.y" in either order, sometimes with a
+	// third name (absent, or a second root-prefixed one) in front, between or behind
+	fields := []string{"x", "root.y"}
+	if r.Intn(3) == 0 {
+		fields = []string{"root.y", "x"}
+	}
+	if r.Intn(3) == 0 {
+		extra := []string{"zz", "root.zz", "root.x", "y"}[r.Intn(4)]
+		pos := r.Intn(len(fields) + 1)
+		fields = append(fields[:pos:pos], append([]string{extra}, fields[pos:]...)...)
+	}
+	cond := c08Cond{Fields: fields, Op: "=", Val: c08Kin(r, match)}
+	switch r.Intn(6) {
+	case 0:
+		cond.Op = "in"
+		cond.Val = rvVal{K: "list", L: []rvVal{match}}
+	case 1:
+		cond.Op = "!="
+		cond.Val = other
+	case 2:
+		cond.Dt = "string"
+		cond.Val = rvVal{K: "s", S: fmt.Sprintf("%v", match.goSpan())}
+	}
+	// spans: some lack x (they fall back to root.y), one carries x = match; the root carries
+	// y = other (non-matching) and may itself be any of them, first or last, or missing
+	n := 2 + r.Intn(3)
+	carrier := r.Intn(n)
+	if r.Intn(2) == 0 {
+		carrier = n - 1 // the matching span comes last: every earlier span must not stop the loop
+	}
+	for k := 0; k < n; k++ {
+		var sp []c08Field
+		if k == carrier {
+			sp = append(sp, c08Field{K: "x", V: match})
+		} else if r.Intn(5) == 0 {
+			sp = append(sp, c08Field{K: "x", V: other})
+		}
+		if r.Intn(3) == 0 {
+			sp = append(sp, c08Field{K: "b", V: c08PickScalar(r, false)})
+		}
+		in.Spans = append(in.Spans, sp)
+	}
+	in.Root = r.Intn(n+1) - 1
+	if in.Root >= 0 {
+		rootY := other
+		if r.Intn(6) == 0 {
+			rootY = match
+		}
+		if r.Intn(8) != 0 {
+			in.Spans[in.Root] = append(in.Spans[in.Root], c08Field{K: "y", V: rootY})
+		}
+	}
+	ru := c08Rule{Name: "mixed", Rate: 1, Drop: r.Intn(2) == 0, Scope: []string{"", "trace", "span", "span"}[r.Intn(4)], Conds: []c08Cond{cond}}
+	// neighbours: further conditions before / after (on the same or other fields)
+	if r.Intn(3) == 0 {
+		extra := c08Cond{Field: []string{"b", "x", "root.y", "root.b"}[r.Intn(4)], Op: []string{"exists", "not-exists", "exists"}[r.Intn(3)], Val: rvVal{K: "nil"}}
+		if r.Intn(2) == 0 {
+			ru.Conds = append([]c08Cond{extra}, ru.Conds...)
+		} else {
+			ru.Conds = append(ru.Conds, extra)
+		}
+	}
+	if r.Intn(4) == 0 {
+		ru.Conds = append(ru.Conds, c08Cond{Op: "has-root-span", Val: rvVal{K: "b", B: in.Root >= 0}})
+	}
+	in.Rules = []c08Rule{ru}
+	if r.Intn(3) == 0 {
+		in.Rules = append(in.Rules, c08Rule{Name: "fallback", Rate: 2, Conds: []c08Cond{{Field: "root.y", Op: "exists", Val: rvVal{K: "nil"}}}})
+	}
+	return in
+}
+
 func c08Gen(r *rand.Rand, tier string, i int) any {
 	if i%3 == 1 {
 		return c08GenFocused(r)
+	}
+	if i%6 == 2 {
+		return c08GenMixedFields(r)
 	}
 	in := c08Input{Seed: int64(1 + r.Intn(1_000_000)), TraceID: fmt.Sprintf("trace-%d", r.Intn(1000))}
 	nspans := 1 + r.Intn(4)
